@@ -21,12 +21,18 @@ NamingOfRec(lang, o) ==
 \* the keyword-set history: features of the problems earlier writers of this process were constructed for
 \* that are outside the current problem's own language fragment
 MinOf(S) == CHOOSE x \in S : \A y \in S : x <= y
-Groups(F) == {<<f[1], f[3]>> : f \in F}
+Groups(F) == {<<f[1], f[3]>> : f \in {g \in F : g[1] # "HistoryIndependent"}}
 Before(t, step) == UNION {Rng(Traces[t].ops[j].feats) : j \in 1..(step - 1)}
-HistDetail(t, step, o) == IF Before(t, step) \ Rng(o.feats) # {} THEN <<"kw-extended">> ELSE <<"same-kw">>
-Summary(F, t, step, o) ==
-   {<<g[1], step, MinOf({f[2] : f \in {h \in F : h[1] = g[1] /\ h[3] = g[2]}}),
-      IF g[1] = "HistoryIndependent" THEN HistDetail(t, step, o) ELSE g[2]>> : g \in Groups(F)}
+\* history dependence is summarised by its first item (types, objects, fluents, actions, parameters, variables
+\* in this order) and by what differs: only the assignment of the same names (permuted), or the names, after a
+\* writer for another language fragment (kw-extended) or not (same-kw)
+HistStatus(t, step, o, N) == IF Permuted(N) THEN "permuted"
+                             ELSE IF Before(t, step) \ Rng(o.feats) # {} THEN "kw-extended" ELSE "same-kw"
+Summary(F, t, step, o, N) ==
+   {<<g[1], step, MinOf({f[2] : f \in {h \in F : h[1] = g[1] /\ h[3] = g[2]}}), g[2]>> : g \in Groups(F)}
+   \cup (LET H == {f[2] : f \in {g \in F : g[1] = "HistoryIndependent"}}
+         IN IF H = {} THEN {}
+            ELSE {<<"HistoryIndependent", step, MinOf(H), <<HistStatus(t, step, o, N), N.items[MinOf(H)].kind>> >>})
 
 TraceInit == tid \in DOMAIN Traces /\ l = 1 /\ bad = {} /\ DInit
 TraceNext ==
@@ -34,7 +40,7 @@ TraceNext ==
    /\ LET o == Traces[tid].ops[l]
           lang == Traces[tid].lang
       IN /\ IF o.op = "touch" THEN Touch(lang, Rng(o.feats)) ELSE Write(lang, Rng(o.feats), NamingOfRec(lang, o))
-         /\ bad' = bad \cup (IF o.op = "touch" THEN {} ELSE Summary(Failures(kw', nm'), tid, l, o))
+         /\ bad' = bad \cup (IF o.op = "touch" THEN {} ELSE Summary(Failures(kw', nm'), tid, l, o, nm'))
    /\ l' = l + 1 /\ tid' = tid
 TraceSpec == TraceInit /\ [][TraceNext]_tvars
 
